@@ -50,7 +50,7 @@ PrimBase(p) ==
     [] p = "string"                 -> Str(<<"alnum">>)
     [] p = "bytes"                  -> [t |-> "bytes", v |-> <<"alnum">>]
 
-RECURSIVE Base(_), Vals(_), RecBase(_), RecVals(_), RecValsPart(_, _)
+RECURSIVE Base(_), Vals(_), RecBase(_), RecVals(_), RecValsPart(_, _), RecValsPair(_, _, _)
 
 Base(ty) ==
   CASE ty.k = "prim" -> PrimBase(ty.p)
@@ -83,6 +83,11 @@ RecValsPart(n, part) ==
           \cup {[t |-> "rec", v |-> SelectSeq(b.v, LAMBDA e : \E j \in Idx(fs) : fs[j].n = e.k /\ ~optional(j))]}   \* every optional/defaulted field absent
           \cup {[t |-> "rec", v |-> [i \in Idx(fs) |-> b.v[Len(fs) + 1 - i]]]}                                        \* fields supplied in reverse order
 RecVals(n) == UNION {RecValsPart(n, part) : part \in 0..Len(FieldsOf(n))}
+\* TWO positions vary at once (thorough tier): fields i and j of record n both run through their variations
+RecValsPair(n, i, j) ==
+  LET fs == FieldsOf(n)
+      b == RecBase(n)
+  IN {[t |-> "rec", v |-> [b.v EXCEPT ![i] = [k |-> fs[i].n, v |-> x], ![j] = [k |-> fs[j].n, v |-> y]]] : x \in Vals(fs[i].ty), y \in Vals(fs[j].ty)}
 
 Vals(ty) ==
   CASE ty.k = "prim" -> PrimVals(ty.p)
